@@ -213,6 +213,29 @@ example : WFtext ("Traceback (most recent call last):\n  File \"/x y/é.py\", li
     = true := by decide +kernel
 example : (exFrames.map (·.1)).all WFframe = true ∧ exFrames.map (·.1) ≠ [] := by decide +kernel
 
+/-! ### from_string called again and again in one process -/
+
+/-- the result of a from_string call does not depend on the calls before it: the last result of a session is the
+    parse of the last text alone -/
+theorem parse_session_history_independent (pre : List Str) (t : Str) :
+    (parseSession (pre ++ [t])).getLast? = some (fromString t) := by
+  simp [parseSession]
+
+/-- in particular a standard-format text parsed a second (third, ...) time - after other texts, after the same text,
+    after texts that share frame lines with it, after calls that failed - gives every field of the TEXT again -/
+theorem reparse_recovers_text (pre : List Str) (fas : List (Frame × Option Str)) (etype msg : Str)
+    (h : WFtextA fas etype msg = true) :
+    (parseSession (pre ++ [toStringA fas etype msg, toStringA fas etype msg])).drop pre.length
+      = [.ok ⟨fas.map (·.1), etype, msg⟩, .ok ⟨fas.map (·.1), etype, msg⟩] := by
+  simp [parseSession, parse_render_markers fas etype msg h]
+
+example : (parseSession ["no traceback".toList, toStringA exFrames "E".toList "x".toList,
+                         toStringA (exFrames.map fun fa => (⟨fa.1.file, fa.1.lineno, fa.1.func, "other()".toList⟩, none)) "E".toList "x".toList,
+                         toStringA exFrames "E".toList "x".toList]).map (fun r => match r with | .ok pe => some pe | .error _ => none)
+    = [none, some ⟨exFrames.map (·.1), "E".toList, "x".toList⟩,
+       some ⟨exFrames.map fun fa => ⟨fa.1.file, fa.1.lineno, fa.1.func, "other()".toList⟩, "E".toList, "x".toList⟩,
+       some ⟨exFrames.map (·.1), "E".toList, "x".toList⟩] := by decide +kernel
+
 /-! the three regions the hypotheses exclude are real defects of the code as it is (known findings) -/
 
 /-- a message ending in a newline is not recovered -/
@@ -329,6 +352,66 @@ theorem format_eq_uncollapsed (frames : List Callpoint) (etype msg : Str) (h : N
   rw [format_eq_std]
   unfold stdFormat
   rw [stdLoop_noLongRun none 0 frames (by omega) h]
+
+/-- a run of entries that share file, line number and function name - whatever else distinguishes them: the source
+    text shown, the frame object, the instruction offset of two calls written on one line, the code object of two
+    lambdas on one line - is folded as ONE run: the first three entries, then the `repeated N more times` note -/
+theorem same_site_run_folds (c : Callpoint) (cs : List Callpoint) (h : ∀ x ∈ cs, sameSite c x = true) :
+    tbInfoFormat (c :: cs) = headerNL ++ (((c :: cs).take 3).flatMap tbFrameStr ++ flushRepeat (cs.length + 1)) := by
+  have key : ∀ (cs : List Callpoint) (k : Nat), 1 ≤ k → (∀ x ∈ cs, sameSite c x = true) →
+      bLoop (some c) k cs = (cs.take (3 - k)).flatMap tbFrameStr ++ flushRepeat (k + cs.length) := by
+    intro cs
+    induction cs with
+    | nil => intro k _ _; simp [bLoop]
+    | cons f fs ih =>
+      intro k hk hs
+      have hf : sameSite c f = true := hs f (List.mem_cons_self ..)
+      have hfs : ∀ x ∈ fs, sameSite c x = true := fun x hx => hs x (List.mem_cons_of_mem _ hx)
+      simp only [bLoop, hf, Bool.not_true, Bool.false_eq_true, ↓reduceIte]
+      by_cases h3 : k + 1 ≤ 3
+      · rw [if_pos h3, ih (k + 1) (by omega) hfs]
+        have : 3 - k = (3 - (k + 1)) + 1 := by omega
+        rw [this, List.take_succ_cons, List.flatMap_cons, List.length_cons]
+        simp [List.append_assoc, Nat.add_assoc, Nat.add_comm 1]
+      · rw [if_neg h3, ih (k + 1) (by omega) hfs]
+        have h0 : 3 - k = 0 := by omega
+        have h1 : 3 - (k + 1) = 0 := by omega
+        simp [h0, h1, Nat.add_assoc, Nat.add_comm 1]
+  have h0 : flushRepeat 0 = [] := by simp [flushRepeat]
+  unfold tbInfoFormat
+  simp only [bLoop, h0, ↓reduceIte, List.nil_append]
+  rw [key cs 1 (by omega) h]
+  simp [List.take_succ_cons, List.flatMap_cons, List.append_assoc, Nat.add_comm 1]
+
+/-- what a report shows of a traceback depends on each entry's file, line number, function and linecache state only:
+    tracebacks that differ in the frame objects the entries refer to and in the entries' instruction offsets
+    (`tb_lasti`) are listed and printed alike -/
+theorem report_ignores_frame_identity_and_lasti (tb tb' : List TbEntry) (limit : Option Nat) (sys : Option Int)
+    (etype msg : Str)
+    (h : tb.map (fun e => (e.path, e.lineno, e.func, e.look)) = tb'.map (fun e => (e.path, e.lineno, e.func, e.look))) :
+    fromTraceback (tb.map walkB) (resolveLimit limit sys) = fromTraceback (tb'.map walkB) (resolveLimit limit sys) ∧
+    eiFormat (fromTraceback (tb.map walkB) (resolveLimit limit sys)) etype msg
+      = eiFormat (fromTraceback (tb'.map walkB) (resolveLimit limit sys)) etype msg := by
+  have hw : ∀ l : List TbEntry, l.map walkB
+      = (l.map (fun e => (e.path, e.lineno, e.func, e.look))).map
+          (fun q => (⟨q.1, q.2.1, q.2.2.1, deferredRaw q.1 q.2.2.2⟩ : Callpoint)) := by
+    intro l; simp [List.map_map, Function.comp_def, walkB]
+  have : tb.map walkB = tb'.map walkB := by rw [hw tb, hw tb', h]
+  rw [this]; exact ⟨rfl, rfl⟩
+
+/-- recursion through one line with two call sites on it (`return f(n-1) if n % 2 else f(n-1)`): five entries with
+    the same file, line and function, alternating instruction offsets, two frame objects - printed as three entries and
+    `repeated 2 more times`; a code file named `.pyc` is shown under that very name -/
+example : eiFormat (fromTraceback ((List.range 5).map fun i =>
+      walkB ⟨"/dist/job.pyc".toList, 7, "descend".toList, i, ⟨.pinned "    return descend(n - 1) if n % 2 else descend(n - 1)\n".toList, none, none⟩,
+             if i % 2 = 0 then 18 else 46⟩) none) "OverflowError".toList "bottom".toList
+    = ("Traceback (most recent call last):\n" ++
+       "  File \"/dist/job.pyc\", line 7, in descend\n    return descend(n - 1) if n % 2 else descend(n - 1)\n" ++
+       "  File \"/dist/job.pyc\", line 7, in descend\n    return descend(n - 1) if n % 2 else descend(n - 1)\n" ++
+       "  File \"/dist/job.pyc\", line 7, in descend\n    return descend(n - 1) if n % 2 else descend(n - 1)\n" ++
+       "  [Previous line repeated 2 more times]\nOverflowError: bottom").toList := by decide +kernel
+
+example : ∀ x ∈ List.replicate 4 (exCp 2 "f" "x\n"), sameSite (exCp 2 "f" "    return f(n - 1)\n") x = true := by decide +kernel
 
 /-- the two halves of the property meet: from_string reads back what ExceptionInfo.get_formatted prints - every
     entry's file, line number, function and stripped source text, the type and the message - and to_string()
@@ -511,10 +594,10 @@ example : sessionB [(⟨some "bvm0".toList, "Lexer.Error".toList⟩, "a: b".toLi
        ("<unknown>.E".toList, "<unknown>.E: x".toList, "<unknown>.E: x\n".toList)] := by decide +kernel
 
 def exTb : List TbEntry :=
-  [⟨"/a b/é.py".toList, 3, "<module>".toList, 0, ⟨.pinned "top()\n".toList, none, none⟩⟩,
-   ⟨"/p/plugin.py".toList, 9, "middle".toList, 1, ⟨.stamped 10 1 "old\n".toList, some (12, 2, "    raise e\n".toList), none⟩⟩,
-   ⟨"/p/plugin.py".toList, 6, "middle".toList, 1, ⟨.stamped 10 1 "old\n".toList, some (12, 2, "    return leaf(key)\n".toList), none⟩⟩,
-   ⟨"<string>".toList, 1, "<module>".toList, 2, ⟨.absent, none, some "x\n".toList⟩⟩]
+  [⟨"/a b/é.py".toList, 3, "<module>".toList, 0, ⟨.pinned "top()\n".toList, none, none⟩, 2⟩,
+   ⟨"/p/plugin.py".toList, 9, "middle".toList, 1, ⟨.stamped 10 1 "old\n".toList, some (12, 2, "    raise e\n".toList), none⟩, 30⟩,
+   ⟨"/p/plugin.py".toList, 6, "middle".toList, 1, ⟨.stamped 10 1 "old\n".toList, some (12, 2, "    return leaf(key)\n".toList), none⟩, 12⟩,
+   ⟨"<string>".toList, 1, "<module>".toList, 2, ⟨.absent, none, some "x\n".toList⟩, 4⟩]
 
 example : ∀ e ∈ exTb, LookOK e.look = true := by decide +kernel
 
